@@ -60,12 +60,23 @@ structure GffRow where
 /-- reference bases (decoded, upper case) at 1-based positions -/
 def refBasesAt (refDegapped : List Nat) (ps : List Nat) : List Nat := ps.map fun p => refDegapped.getD (p - 1) 0
 
-/-- CDSRegion2fromGFF with the phase taken from the 5'-most row only; none = error -/
-def regionFromGFF (rows : List GffRow) (refDegapped : List Nat) : Option Region :=
-  match rows with
-  | [] => none
-  | r0 :: _ =>
-    let name := r0.name.getD ""
+/-- stable insertion of a row by genomic start (sort.SliceStable on Start) -/
+def insertRow (r : GffRow) : List GffRow → List GffRow
+  | [] => [r]
+  | x :: xs => if r.start < x.start then r :: x :: xs else x :: insertRow r xs
+
+/-- the rows of one feature ordered by genomic start, rows of equal start in file order -/
+def sortRows (rows : List GffRow) : List GffRow := rows.foldl (fun acc r => insertRow r acc) []
+
+/-- CDSRegion2fromGFF with the phase taken from the 5'-most row only; none = error. Since fix a19382f the rows are first
+    ordered by genomic start (the name is still that of the first row in file order) -/
+def regionFromGFF (rows0 : List GffRow) (refDegapped : List Nat) : Option Region :=
+  let rows := sortRows rows0
+  match rows0, rows with
+  | [], _ => none
+  | _, [] => none
+  | f0 :: _, r0 :: _ =>
+    let name := f0.name.getD ""
     match r0.strand with
     | "+" =>
       if rows.any (fun r => r.strand != "+") then none else
